@@ -186,7 +186,8 @@ class ProgressivelyTerminalDecider(BaseDecider):
             if n in self.grammar.recursive_prods:
                 return target // (ctx.depth + 1)
             else:
-                return target - self.grammar.get_distance_to_terminal(n)
+                # never zero: a zero heuristic would wipe out the declared weight of the deepest production
+                return max(1, target - self.grammar.get_distance_to_terminal(n))
 
         weights = [w(alt) * self.grammar.get_weights().get(alt, 1.0) for alt in alternatives]
         return self.random.choice_weighted(alternatives, weights)
